@@ -75,7 +75,7 @@ pub fn genome_to_bytes(g: &Genome, cfg: &GenCfg) -> Vec<u8> {
   let n_steps = g.steps.len().clamp(1, cfg.max_steps);
   let mut v = vec![(n_tasks - 1) as u8, (n_steps - 1) as u8];
   for i in 0..12 { v.extend(g.layout.get(i).copied().unwrap_or(0).to_le_bytes()); }
-  for s in 0..n_steps { for i in 0..6 { v.extend(g.steps[s].get(i).copied().unwrap_or(0).to_le_bytes()); } }
+  for s in 0..n_steps { for i in 0..10 { v.extend(g.steps[s].get(i).copied().unwrap_or(0).to_le_bytes()); } }
   let per = g.tasks.iter().take(n_tasks).map(|t| t.len()).max().unwrap_or(0).max(1);
   for t in 0..n_tasks { for i in 0..per { v.extend(g.tasks[t].get(i).copied().unwrap_or(0).to_le_bytes()); } }
   v
